@@ -35,6 +35,25 @@ KEY_GROUPS = {
 
 MAP_OPS = ['map:put', 'map:put', 'map:remove', 'map:merge', 'map:merge', 'map:entry', 'map-ctor', 'map:get',
            'map:contains', 'map:size', 'map:keys', 'map-call', 'map-lookup-all', 'map-lookup', 'map-lookup', 'nest-map-arr']
+# operations whose result is not modelled: only the immutability of every pool member is judged after them
+UNMODELLED_ARRAY = {
+    'u:array-sort': 'array:sort(%s)', 'u:array-sort-key': 'array:sort(%s, (), function($m) { count($m) })',
+    'u:array-for-each': 'array:for-each(%s, function($m) { ($m, 1) })',
+    'u:array-filter': 'array:filter(%s, function($m) { count($m) > 0 })',
+    'u:array-fold-left': 'array:fold-left(%s, (), function($a, $m) { ($a, $m) })',
+    'u:array-fold-right': 'array:fold-right(%s, (), function($m, $a) { ($m, $a) })',
+    'u:array-for-each-pair': 'array:for-each-pair(%s, %s, function($x, $y) { ($x, $y) })',
+    'u:array-members-sorted': 'sort(%s?*)', 'u:array-apply': 'apply(function($x) { $x }, [%s])',
+    'u:array-json': "serialize(%s, map{'method': 'json'})", 'u:array-deep-equal': 'deep-equal(%s, %s)',
+    'u:array-reverse-members': 'reverse(%s?*)', 'u:array-string-join': "string-join(array:flatten(%s) ! string(.), ',')",
+}
+UNMODELLED_MAP = {
+    'u:map-for-each': 'map:for-each(%s, function($k, $v) { ($k, $v) })', 'u:map-find': 'map:find(%s, 1)',
+    'u:map-json': "serialize(%s, map{'method': 'json'})", 'u:map-deep-equal': 'deep-equal(%s, %s)',
+    'u:map-merge-combine-self': "map:merge((%s, %s), map{'duplicates': 'combine'})",
+    'u:map-values-sorted': 'sort(%s?* ! count(.))', 'u:map-keys-sorted': 'sort(map:keys(%s) ! string(.))',
+    'u:map-entries': 'map:keys(%s) ! map:entry(., 1)',
+}
 ARRAY_OPS = ['sq-ctor', 'curly-ctor', 'array:put', 'array:append', 'array:append', 'array:insert-before',
              'array:remove', 'array:subarray', 'array:head', 'array:tail', 'array:reverse', 'array:join',
              'array:flatten', 'array:get', 'array:size', 'array-call', 'array-lookup-all', 'array-lookup', 'array-lookup',
@@ -86,6 +105,9 @@ def expr_and_model(op, pool, template=False):
     r = ['$a%d' % i for i in range(len(args))] if template else [render(a) for a in args]
     v = lambda i: mval(args[i], pool)   # noqa: E731
     name = op['name']
+    if name.startswith('u:'):
+        tmpl = UNMODELLED_ARRAY.get(name) or UNMODELLED_MAP[name]
+        return tmpl % tuple(r[:tmpl.count('%s')]), None
     if name == 'map:put':
         return 'map:put(%s, %s, %s)' % (r[0], r[1], r[2]), lambda: M.map_put(v(0), v(1), v(2))
     if name == 'map:remove':
@@ -219,6 +241,10 @@ def gen_case(rng, tier):
     groups = sorted(KEY_GROUPS)
     enabled = [g for g in groups if rng.random() < rng.choice([0.35, 0.6, 1.0])] or ['int', 'string']
     atoms = sorted(set(i for g in enabled for i in KEY_GROUPS[g]))
+    if rng.random() < 0.15:
+        # few keys of one collision family: the same key (by the same-key relation) meets again and again
+        atoms = rng.choice([[10, 14, 16], [10, 14], [1, 5, 8, 15], [1, 5, 8, 15, 23], [16, 20, 21], [0, 7, 12, 13, 24]])
+        enabled = ['few-keys']
     nops = rng.randint(3, 40 if thorough else 18)
     fail_rate = rng.choice([0.0, 0.1, 0.25])
     mode = rng.choice(['select', 'shared-parser', 'reused-tokens', 'reused-tokens'])
@@ -261,6 +287,12 @@ def gen_case(rng, tier):
     for _ in range(nops):
         want_map = rng.random() < 0.5
         name = rng.choice(MAP_OPS if want_map else ARRAY_OPS)
+        if rng.random() < 0.12 and mode != 'reused-tokens':
+            kind = 'map' if want_map else 'array'
+            x1, x2 = pick(kind), pick(kind)
+            if x1 is not None:
+                ops.append({'name': rng.choice(sorted(UNMODELLED_MAP if want_map else UNMODELLED_ARRAY)), 'args': [x1, x2 or x1]})
+                continue
         op = {'name': name}
         if name.startswith('nest-'):
             pass
@@ -279,7 +311,7 @@ def gen_case(rng, tier):
         elif name in ('map:remove',):
             op['args'] = [m, atom() if rng.random() < 0.7 else {'seq': [atom(), atom()]}]
         elif name == 'map:merge':
-            others = [pick('map') or m for _ in range(rng.choice([1, 1, 2]))]
+            others = [pick('map') or m for _ in range(rng.choice([1, 1, 2, 3]))]
             op['args'] = [{'seq': [m] + others}]
             op['dups'] = rng.choice(DUPS)
         elif name == 'map:entry':
@@ -470,7 +502,7 @@ def run_case(case, world):
             for k, _v in (m[1] if m[0] == 'map' else []):
                 feats.add('mapkey:' + M.key_classes(k))
         try:
-            expected = ['ok', M.norm(model())]
+            expected = ['unjudged'] if model is None else ['ok', M.norm(model())]
         except M.ModelError as e:
             expected = ['error', e.code]
             stats['failing_ops'] += 1
@@ -514,6 +546,9 @@ def run_case(case, world):
                 pool[i] = (pool[i][0], M.norm(now), obj)
 
         # (2) result vs model
+        if expected[0] == 'unjudged':
+            world.probe('unmodelled-operation-judged-for-immutability-only')
+            continue
         if outcome[0] == 'error':
             err = outcome[1]
             world.event(('error', idx, canon_exc(err)))
@@ -524,7 +559,9 @@ def run_case(case, world):
                     violate('MODEL_MISMATCH', 'unexpected-error:%s' % op['name'],
                             '%s raised %r, model gives %r' % (text, canon_exc(err), expected[1]), feats)
                 else:
-                    world.probe('non-ep-exception-logged')     # exception type is C03's subject
+                    # the operation has a value in the model: no value at all is a mismatch whatever is raised
+                    violate('MODEL_MISMATCH', 'unexpected-error:%s' % op['name'],
+                            '%s raised %r, model gives %r' % (text, canon_exc(err), expected[1]), feats | {'non-ep-exception'})
             else:
                 code = canon_exc(err)[2] if is_ep_error(err) else None
                 if expected[1] == 'FOAY0001' and code != 'FOAY0001' and is_ep_error(err):
